@@ -67,6 +67,10 @@ CompanionVerdict(c, o) ==
         ELSE IF o.st_est # c.stamps \/ o.st_ref # c.stamps THEN "StoredTrajectoriesNotTheProcessedOnes"
         ELSE IF ~o.title_ok \/ ~o.label_ok THEN "TitleOrLabelWrong" ELSE "ok")
   ELSE (IF Len(o.ids) # o.nerr THEN "NotOneEntryPerValue"
+        \* the entries belong to the END poses of the pairs the values were computed on (pairs recorded at the selector's return;
+        \* for the ratio relation pairs with zero reference distance carry no value)
+        ELSE IF o.ids # LET keep == IF c.rel = "ratio" THEN SelectSeq(o.pairs, LAMBDA pr : Dist2(c.ref[pr[1] + 1].p, c.ref[pr[2] + 1].p) # 0) ELSE o.pairs
+                        IN [k \in DOMAIN keep |-> keep[k][2]] THEN "EntriesNotOfPairEndPose"
         ELSE IF o.ts # [k \in DOMAIN o.ids |-> c.stamps[o.ids[k] + 1]] THEN "TimestampsNotOfPairEndPose"
         ELSE IF o.sfs # [k \in DOMAIN o.ids |-> c.stamps[o.ids[k] + 1] - c.stamps[1]] THEN "SecondsNotOfPairEndPose"
         ELSE IF o.st_est # <<c.stamps[1]>> \o [k \in DOMAIN o.ids |-> c.stamps[o.ids[k] + 1]] \/ o.st_ref # o.st_est
@@ -102,8 +106,10 @@ StatsLaws(e) ==
 \* ---- units (C12): conversion factor between units as 10^k * (180/pi)^p ; refused otherwise
 Lengths == {"mm", "cm", "m", "km"}
 Exp10(u) == CASE u = "mm" -> -3 [] u = "cm" -> -2 [] u = "m" -> 0 [] u = "km" -> 3
-UnitVerdict(c, o) ==       \* c = [from, to]; o = [out, unit, k10, pi]  (values multiplied by 10^k10 * (180/pi)^pi)
-  IF c.from = c.to THEN (IF o.out = "ok" /\ o.unit = c.to /\ o.k10 = 0 /\ o.pi = 0 THEN "ok" ELSE "SameUnitNotANoOp")
+UnitVerdict(c, o) ==       \* c = [from, to]; o = [out, unit, k10, pi, stats_follow]  (values multiplied by 10^k10 * (180/pi)^pi)
+  \* statistics taken before AND after the conversion: afterwards they are the statistics of the converted values
+  IF ~o.stats_follow THEN "StatisticsNotOfTheConvertedValues"
+  ELSE IF c.from = c.to THEN (IF o.out = "ok" /\ o.unit = c.to /\ o.k10 = 0 /\ o.pi = 0 THEN "ok" ELSE "SameUnitNotANoOp")
   ELSE IF c.from \in Lengths /\ c.to \in Lengths THEN
          (IF o.out = "ok" /\ o.unit = c.to /\ o.k10 = Exp10(c.from) - Exp10(c.to) /\ o.pi = 0 THEN "ok" ELSE "WrongLengthConversion")
   ELSE IF c.from = "rad" /\ c.to = "deg" THEN (IF o.out = "ok" /\ o.unit = "deg" /\ o.k10 = 0 /\ o.pi = 1 THEN "ok" ELSE "WrongAngleConversion")
